@@ -50,6 +50,7 @@ fn main() {
         "C06" => props::c06::run(chk),
         "C07" => props::c07::run(chk),
         "C08" => props::c08::run(chk),
+        "C09" => props::c09::run(chk),
         "C10" => props::c10::run(chk),
         "C11" => props::c11::run(chk),
         "C12" => props::c12::run(chk),
